@@ -62,3 +62,7 @@ Definition check_bounds (cs : nat * list (float * float) * list (float * float) 
     | _ => update_bnds_tidd F idf b0
     end in
   opt_eqb (list_eqb row_same) got expected.
+
+(* ModelCoefficients.from_np_arrays called directly: (coef_id as key, array, implementation's coefficients) -- exact *)
+Definition check_from_np (cs : model_key * list float * option (coeffs F)) : bool :=
+  let '(id, x, expected) := cs in opt_eqb coeffs_same (from_np_arrays F id x) expected.
